@@ -138,3 +138,49 @@ Fixpoint coerce_input (n : nat) (s : schema) : gtype -> json -> option cvalue :=
           end
         end
     end.
+
+(* ---- canonical form of a provided value (used by the converse theorem, Proofs/ConverseP.v) ---- *)
+(* find_field is Model/Inputs.v's; the specification has its own copy to stay independent of the model *)
+Fixpoint spec_find_field (k : string) (fs : list ifdef) : option ifdef :=
+  match fs with
+  | [] => None
+  | f :: r => if String.eqb k (i_name f) then Some f else spec_find_field k r
+  end.
+
+Definition canon_leaf (s : schema) (nm : string) (j : json) : bool :=
+  match kind_of s nm, j with
+  | KInt, JInt z => int32 z
+  | KFloat, JInt _ | KFloat, JFloat _ | KString, JStr _ | KID, JStr _ | KBoolean, JBool _ | KEnum _, JStr _ => true
+  | KScalar, JNull => false
+  | KScalar, _ => true
+  | _, _ => false
+  end.
+
+(* canonical kinds at the leaves, known keys in objects; nothing about nullability, required fields, enum
+   membership or list shape — that is what the model has to enforce itself *)
+Fixpoint canon (s : schema) (j : json) : gtype -> bool :=
+  fix go (t : gtype) : bool :=
+    match t with
+    | TNonNull t' =>
+        match j, t' with
+        | JNull, TNamed nm => match kind_of s nm with KScalar => false | _ => true end
+        | _, _ => go t'
+        end
+    | TList t' => match j with JArr l => forallb (fun x => canon s x t') l | _ => true end
+    | TNamed nm =>
+        match j with
+        | JNull => true
+        | JObj kv =>
+            match kind_of s nm with
+            | KInput fs =>
+                known_keys fs kv &&
+                forallb (fun p => match spec_find_field (fst p) fs with
+                                  | Some f => canon s (snd p) (i_type f)
+                                  | None => false end) kv
+            | KScalar => true
+            | _ => false
+            end
+        | _ => canon_leaf s nm j
+        end
+    end.
+
